@@ -400,6 +400,13 @@ def run_c20(v, w, tier, replay):
         if clause.startswith("Drift_"):
             v.drift.append({"case": e["id"], "what": clause, "o": e["o"]})
             continue
+        if clause.startswith("KF:"):
+            kf = next((k for k in kf_for("C20") if k["id"] == clause[3:]), None)
+            if kf is None:
+                raise ToolError("trace spec matched an unlisted finding %s" % clause)
+            v.known_finding(kf, "case %s: install env %s -> upgrade env %s after a second `add --env %s`" % (
+                e["id"], e.get("install", {}).get("env"), e.get("upgrade", {}).get("env"), e["conc"].get("oenv")))
+            continue
         key = (clause, e["add_res"], e["upg_res"], e["node_i"].get("ok"), e["node_u"].get("ok"))
         if key in seen and len(v.violations) >= 5:
             continue
@@ -420,7 +427,7 @@ def run_c20(v, w, tier, replay):
     v.cov["events_validated"] = len(events)
     v.cov["node_runs"] = sum(1 for e in events for k in ("node_i", "node_u") if e[k].get("exit", -3) != -3)
     v.cov["node_accepted"] = sum(1 for e in events for k in ("node_i", "node_u") if e[k].get("ok"))
-    v.cov["rule"] = ("cases = rows of an orthogonal array of strength %d over the 26 option dimensions (network selection incl. custom EVM, "
+    v.cov["rule"] = ("cases = rows of an orthogonal array of strength %d over the 27 dimensions (26 options and whether a second service is added, without / with another --env, before the upgrade) (network selection incl. custom EVM, "
                      "node/rpc/metrics ports, rpc address, node ip, first/local/peers/contacts-url/ignore-cache/testnet/cache-dir, log "
                      "format/dir/max files/max archived, owner, home-network, upnp, user mode, environment, auto-restart, rewards address, "
                      "network id, upgrade --env), repaired to installable combinations; TLC checks that every installable pair of values "
